@@ -443,7 +443,22 @@ enum Plan {
 fn plan(h: &Hostile) -> Plan {
     let line = |s: String| Plan::Raw { http: false, bytes: format!("{s}\r\n").into_bytes(), half_close: false, hold: false };
     match h {
-        Hostile::TcpUnknownProduct { v2, endpoint } => line(format!("v{}/products/{ABSENT_PRODUCT}/{}", if *v2 { 2 } else { 1 }, EP[*endpoint as usize % 3])),
+        Hostile::TcpUnknownProduct { v2, endpoint } => {
+            // endpoint / 3 picks the spelling of the absent product: plain, or long names of multi-byte
+            // characters (whatever a server does with a name - logging, statistics keys, truncation -
+            // it does it at byte offsets)
+            let product: String = match endpoint / 3 {
+                0 => ABSENT_PRODUCT.to_string(),
+                1 => "\u{20ac}".repeat(100),
+                2 => format!("a{}", "\u{20ac}".repeat(100)),
+                3 => format!("ab{}", "\u{65e5}".repeat(120)),
+                4 => "\u{e9}".repeat(200),
+                5 => format!("x{}", "\u{e9}".repeat(200)),
+                6 => "\u{1F600}".repeat(70),
+                _ => format!("{}\u{20ac}\u{20ac}", "x".repeat(255)),
+            };
+            line(format!("v{}/products/{product}/{}", if *v2 { 2 } else { 1 }, EP[*endpoint as usize % 3]))
+        }
         Hostile::TcpUnknownEndpoint { v2 } => line(format!("v{}/products/{PROBE_PRODUCT}/nonsense", if *v2 { 2 } else { 1 })),
         Hostile::TcpWrongArity { variant } => line(match variant % 8 {
             0 => format!("v1/products/{PROBE_PRODUCT}"),
